@@ -90,8 +90,9 @@ class Gen:
         return "".join(self.parts)
 
     def fresh(self, prefix):
+        """fresh identifier; the letter after the prefix is random so that declaration order and name order differ"""
         self.counter += 1
-        return "%s%d" % (prefix, self.counter)
+        return "%s%s%d" % (prefix, self.rng.choice("abcdefghijklmnopqrstuvwxyz"), self.counter)
 
     def word(self):
         r = self.rng
